@@ -51,7 +51,9 @@ def generate(tier, rng):
                     k += 1
                     if tier == "quick" and (k % 3) and len(extra) == 2:
                         continue
-                    base = dict(cls=cls, grid=grid, gname=gname, extra=extra, lifetime=lt, driver=[0] * N)
+                    # every third configuration holds its (whole-number) drivers as int64 arrays: the results are the same
+                    # real numbers as for the float array with the same values
+                    base = dict(cls=cls, grid=grid, gname=gname, extra=extra, lifetime=lt, driver=[0] * N, int_dtype=(k % 3 == 0))
                     if solver:
                         base["solver"] = solver
                     d1 = [rng.randint(0, 6) for _ in range(N)]
